@@ -189,12 +189,13 @@ CLAIMED["C16"] = dict(
          "gone sessions and UDP sockets read zero at once and TCP sockets after the timeouts; refused and timed-out connects are "
          "balanced; byte counters only grow and grow by exactly the bytes relayed on relaying tunnels; METRICS.md (re-read every run) "
          "documents exactly these five series, types and label names. Tied to the code by ~140 (1200) histories per run through real "
-         "HTTP/1.1 and HTTP/2 tunnel sessions with the real forwarder against loopback TCP/UDP servers, reading Metrics::collect "
+         "HTTP/1.1, HTTP/2 and (live) HTTP/3 tunnel sessions with the real forwarder against loopback TCP/UDP servers, reading Metrics::collect "
          "after every event and the real metrics listener (GET /metrics, /health-check, another path) over TCP.",
     note="Trusted: Lean kernel, harness/door, prometheus text encoding, loopback socket behaviour. The byte-direction-to-series mapping "
          "is calibrated per run, not fixed (code and METRICS.md disagree on it, see DESIGN.md). TCP idle expiry only with generous "
-         "advances (C14 covers its timing). HTTP/3 sessions are outside the model and checked directly on the live listener (suite "
-         "c16h3); ICMP multiplexer traffic where raw sockets are permitted; the SOCKS5 TCP path and the non-tunnel channels are not driven.",
+         "advances (C14 covers its timing). HTTP/3 sessions are in the model (Proto.h3, own cells) and tied by histories on the live "
+         "QUIC listener (suite c16h3, wall clock, no clock advances); ICMP multiplexer traffic where raw sockets are permitted; the SOCKS5 "
+         "TCP path and the non-tunnel channels are not driven.",
 )
 CLAIMED["C17"] = dict(
     text="Unbounded Lean theorems about the forwarded-response sink under the pipe's write / wait / write-again loop, with a client-side "
